@@ -702,6 +702,10 @@ async fn connect_and_run_test_file(
 
     let begin = Instant::now();
 
+    // Name the file before anything can end the run, so that every status is attributed.
+    write!(out, "{: <60} .. ", filename.to_string_lossy()).unwrap();
+    let _ = flush(out).await;
+
     // Note: we don't use `CancellationToken::run_until_cancelled` here because it always
     // poll the wrapped future first, while we want cancellation to be more responsive.
     let result = tokio::select! {
@@ -743,9 +747,6 @@ async fn run_test_file<T: std::io::Write, M: MakeConnection>(
     filename: impl AsRef<Path>,
 ) -> Result<Duration> {
     let filename = filename.as_ref();
-
-    write!(out, "{: <60} .. ", filename.to_string_lossy())?;
-    flush(out).await?;
 
     let records = tokio::task::block_in_place(|| sqllogictest::parse_file(filename))
         .context("failed to parse sqllogictest file")?;
